@@ -41,7 +41,7 @@ class Concretizer:
             self.val_name[mv] = '%s.t%d' % (self.cls_name[cv], len(self.val_name))
         return self.val_name[mv]
 
-    def scenario(self, uni, path, name, output_term=None):
+    def scenario(self, uni, path, name, output_term=None, outs=None):
         """uni: the universe whose declaration order / specs to use; path: [(action, result)]"""
         hist = {}
         for k, (v, p) in uni.hist_spec.items():
@@ -49,9 +49,12 @@ class Concretizer:
                 hist[k] = self.sval(rt.term_of(v)) if type(v) is Out else v
         present = [j for j, p in uni.present_spec.items() if self.bval(p)]
         events = []
-        for action, result in path:
+        for i, (action, result) in enumerate(path):
             if action[0] == 'ok':
-                t = output_term(action[1]) if output_term else ('o', action[1])
+                if outs is not None and outs[i] is not None:
+                    t = outs[i]
+                else:
+                    t = output_term(action[1]) if output_term else ('o', action[1])
                 events.append(('ok', action[1], self.sval(t)))
             else:
                 events.append(tuple(action))
@@ -80,7 +83,7 @@ def concretize(ex, viol):
     if model is None:
         raise rt.Unsupported('no model for counterexample path condition')
     c = Concretizer(z, ex.uni, model)
-    return c.scenario(ex.uni, st.path(), 'cex_%s' % viol.prop, output_term=lambda j: ex.output_term(None, j))
+    return c.scenario(ex.uni, st.path(), 'cex_%s' % viol.prop, output_term=lambda j: ex.output_term(None, j), outs=st.path_outs())
 
 
 def describe(ex, viol):
